@@ -14,7 +14,7 @@ def sh(cmd, **kw):
 
 def main():
     sid = sys.argv[1]
-    tier, props, seed = "quick", None, None
+    tier, props, seed, worktree = "quick", None, None, None
     a = sys.argv[2:]
     while a:
         if a[0] == "--tier":
@@ -23,37 +23,44 @@ def main():
             props = a[1].split(",")
         elif a[0] == "--seed":
             seed = a[1]
+        elif a[0] == "--worktree":
+            worktree = a[1]        # a scratch worktree that already has the change applied: checks run against it (VERIF_REPO), /repo stays untouched
         a = a[2:]
     d = os.path.join(V, "seeded", sid)
     meta = json.load(open(os.path.join(d, "meta.json")))
     props = props or meta.get("checks") or [meta["property"]]
-    st = sh(["git", "-C", REPO, "status", "--porcelain", "--untracked-files=no"])
-    if st.stdout.strip():
-        print("refusing: /repo has uncommitted changes\n" + st.stdout)
-        return 2
-    r = sh(["git", "-C", REPO, "apply", os.path.join(d, "patch.diff")])
-    if r.returncode != 0:
-        print("patch does not apply:\n" + r.stdout)
-        return 2
+    if worktree is None:
+        st = sh(["git", "-C", REPO, "status", "--porcelain", "--untracked-files=no"])
+        if st.stdout.strip():
+            print("refusing: /repo has uncommitted changes\n" + st.stdout)
+            return 2
+        r = sh(["git", "-C", REPO, "apply", os.path.join(d, "patch.diff")])
+        if r.returncode != 0:
+            print("patch does not apply:\n" + r.stdout)
+            return 2
     results = {}
     try:
         for p in props:
             env = dict(os.environ)
+            if worktree:
+                env["VERIF_REPO"] = worktree
+                env["VERIF_BUILD_DIR"] = os.path.join(worktree, "_vbuild")
             if seed:
                 env["VERIF_SEED"] = seed
             t0 = time.time()
             rr = sh(["python3", os.path.join(V, "verif.py"), "check", p, "--tier", tier], cwd=V, env=env)
             keys = [l.strip()[4:] for l in rr.stdout.split("\n") if l.strip().startswith("key=")]
             last = [l for l in rr.stdout.split("\n") if l.startswith(p + " tier=")]
-            results[p] = dict(exit=rr.returncode, violation_keys=sorted(set(keys))[:12], summary=(last[-1] if last else rr.stdout[-400:]), wall_s=round(time.time() - t0, 1), tier=tier,
+            results[p] = dict(against=("worktree " + worktree if worktree else "/repo with the patch applied"), exit=rr.returncode, violation_keys=sorted(set(keys))[:12], summary=(last[-1] if last else rr.stdout[-400:]), wall_s=round(time.time() - t0, 1), tier=tier,
                               seed=seed or os.environ.get("VERIF_SEED", "1"))
             print(p, "exit", rr.returncode, (last[-1] if last else "")[:200])
             for k in sorted(set(keys))[:6]:
                 print("   key=" + k[:200])
     finally:
-        sh(["git", "-C", REPO, "checkout", "--", "."])
+        if worktree is None:
+            sh(["git", "-C", REPO, "checkout", "--", "."])
         # files the patch added would be untracked; remove them
-        for l in open(os.path.join(d, "patch.diff")):
+        for l in (open(os.path.join(d, "patch.diff")) if worktree is None else []):
             if l.startswith("+++ b/"):
                 f = os.path.join(REPO, l[6:].strip())
                 if sh(["git", "-C", REPO, "ls-files", "--error-unmatch", l[6:].strip()]).returncode != 0 and os.path.exists(f):
